@@ -112,6 +112,26 @@ func CheckC18(run *evid.Run) {
 			appended = append(appended, ne.(*entry.Entry))
 			run.Count(fmt.Sprintf("hand_built_next%d_refs%s", minInt(shape[0], 1), map[bool]string{true: "1+", false: "0"}[shape[1] > 0]), 1)
 		}
+		// ... and entries whose links are OLD-STYLE identifiers (CIDv0, what the legacy format of this very library wrote):
+		// a log started long ago and continued with a link key. The same-key reader must get back the identifiers that
+		// were sealed, in the form they had
+		if len(appended) >= 2 && i%2 == 0 {
+			a, b := appended[rng.Intn(len(appended))], appended[rng.Intn(len(appended))]
+			nx := []cid.Cid{cid.NewCidV0(a.Hash.Hash()), b.Hash}
+			rf := []cid.Cid{cid.NewCidV0(b.Hash.Hash())}
+			if rng.Intn(2) == 0 {
+				nx, rf = rf, nx
+			}
+			pl := fmt.Sprintf("%d.%d/hand-v0", h.Seed, h.Idx)
+			ne, err := entry.CreateEntryWithIO(x.W.Ctx, x.W.Store.API(), x.W.Idents[0], &entry.Entry{LogID: x.W.LogID, Payload: []byte(pl), Next: nx, Refs: rf}, nil, x.W.IOv())
+			if err != nil {
+				run.Violate("C18/op-error", det("op", "create"), histSample(h), "creating an entry with CIDv0 links failed with a link key: %v", err)
+			} else {
+				class[pl] = "ascii"
+				appended = append(appended, ne.(*entry.Entry))
+				run.Count("hand_built_with_cidv0_links", 1)
+			}
+		}
 		// a replica restored from storage with the keyed codec keeps writing encrypted links
 		for r, l := range x.Logs {
 			if l.Len() == 0 || rng.Intn(2) == 0 {
